@@ -1,10 +1,19 @@
 /* ---- abstract DSL objects: what the accessors that class parser calls on them return (the accessors themselves are under
    contract in units terms / values / rules) ---- */
-struct vx_Term { const char* id; const char* name; int precedence; int ass; };
+struct vx_Term { const char* id; const char* name; int precedence; int ass; const void* ftor; };
 static inline const char* vx_Term__get_id(const struct vx_Term* t) { return t->id; }
 static inline const char* vx_Term__get_name(const struct vx_Term* t) { return t->name; }
 static inline int vx_Term__get_precedence(const struct vx_Term* t) { return t->precedence; }
 static inline int vx_Term__get_associativity(const struct vx_Term* t) { return t->ass; }
+static inline const void* vx_Term__get_ftor(const struct vx_Term* t) { return t->ftor; }
+/* the term tuple, a lexeme, a term value (R13: the functor result is an opaque value) */
+struct vx_terms { struct vx_Term t[PH_TERMS]; };
+static inline const struct vx_Term* vx_get_term(const struct vx_terms* tt, size_t k) { __CPROVER_assert(k < P_TERMS, "VX_BOUND std::get<TermIdx> inside the term tuple"); return &tt->t[k]; }
+struct vx_sv { const char* p; size_t n; };
+struct vx_tv { const void* value; struct source_point sp; };
+static inline struct vx_tv vx_mk_term_value(const void* v, struct source_point sp) { struct vx_tv r = { v, sp }; return r; }
+int g_ap_calls; const void* g_ap_f; const struct vx_sv* g_ap_sv; const void* g_ap_ret;
+static inline const void* vx_apply_ftor(const void* f, const struct vx_sv* sv) { if (g_ap_calls < 1000) g_ap_calls++; g_ap_f = f; g_ap_sv = sv; return g_ap_ret; }
 struct vx_nterm { const char* name; };
 static inline const char* vx_nterm__get_name(const struct vx_nterm* n) { return n->name; }
 /* a rule object: the name of its left side, its explicit precedence, and for item I of its right side the symbol that
